@@ -46,7 +46,7 @@ func frameScenarios(only func(t *rm.Type) bool, depth int) []*hScenario {
 			d := valenum.Stale(valenum.WithKey(t, k, "D"), 4)
 			lg := valenum.Stale(valenum.WithKey(t, k, "L"), 0xFFFFFFFF)
 			out = append(out, &hScenario{Name: t.QName() + " key " + k, T: t, Msgs: []*rm.Value{z, d, lg}, Ops: ops, Depth: depth,
-				Caps: []int{capZero, capOwned, 0, 1, hdr, encLen(d) - 1, 4096}})
+				Caps: append([]int{capZero, capOwned, 0, 1, hdr, encLen(d) - 1, 4096}, slideClasses...)})
 		}
 		// one scenario with a body larger than 65,536 bytes (a length that does not fit 16 bits), where a body type allows it
 		for _, k := range tab.Order {
@@ -66,7 +66,7 @@ func frameScenarios(only func(t *rm.Type) bool, depth int) []*hScenario {
 			n1 := valenum.Stale(valenum.NilDyn(valenum.WithKey(t, k1, "D")), 4)
 			d := valenum.WithKey(t, k1, "D")
 			out = append(out, &hScenario{Name: t.QName() + " nil body", T: t, Msgs: []*rm.Value{n0, n1, d}, Ops: ops, Depth: depth,
-				Caps: []int{capZero, capOwned, 0, 1, hdr, 4096}})
+				Caps: append([]int{capZero, capOwned, 0, 1, hdr, 4096}, slideClasses...)})
 		}
 	}
 	return out
@@ -122,12 +122,12 @@ func runFrameHist(r *ev.Run, prop string, thorough bool) {
 		}
 		return false
 	}, depth)
-	r.Rule = fmt.Sprintf("every frame type with a self-computed %s x every registered body key (bodies Z, D with stale caller values, L = 300-byte texts and 3-element lists) + nil body; ALL operation sequences of length <= %d over {ENC(m0),ENC(m1),ENC(m2),SKIP(1),SKIP(3),JUNK(AA),JUNK(AAx5),RESET} x 7 buffer capacity classes, each replayed on fresh real objects next to a pure model; after every op buffer and message objects are compared with the model; distinct = distinct (scenario,capacity,sequence); all are non-trivial (each executes >=1 real operation)", want, depth)
+	r.Rule = fmt.Sprintf("every frame type with a self-computed %s x every registered body key (bodies Z, D with stale caller values, L = 300-byte texts and 3-element lists) + nil body; ALL operation sequences of length <= %d over {ENC(m0),ENC(m1),ENC(m2),SKIP(1),SKIP(3),JUNK(AA),JUNK(AAx5),RESET} x 10 buffer capacity classes (zero value, caller-owned slice, capacities 0/1/header/size-1/4096, and three mostly-consumed 512-byte buffers whose next growth slides the unread bytes inside the same array), each replayed on fresh real objects next to a pure model; after every op buffer and message objects are compared with the model; distinct = distinct (scenario,capacity,sequence); all are non-trivial (each executes >=1 real operation)", want, depth)
 	r.Assume("model transition for ENC is: unread ++= EncodeRef(m) with computed fields correct", "consumed bytes are not observable through the bytes.Buffer API and are not compared")
 	parScenarios(r, prop, scs)
 	r.Sample("sse.SseBinary key 33: [ENC(m0) ENC(m1) SKIP(3) ] cap class -1")
 	r.Sample("sample.RootPacket nil body: [JUNK(1) ENC(m1) ENC(m0)] cap class 4096")
-	r.Set("bound", map[string]any{"depth": depth, "capacity_classes": 7})
+	r.Set("bound", map[string]any{"depth": depth, "capacity_classes": 10})
 }
 
 func runC06(r *ev.Run, thorough bool) {
@@ -138,7 +138,7 @@ func runC06(r *ev.Run, thorough bool) {
 	ops := []hOp{{opENC, 0}, {opENC, 1}, {opSKIP, 1}, {opSKIP, 3}, {opJUNK, 0}, {opJUNK, 4}, {opRESET, 0}}
 	var scs []*hScenario
 	for _, t := range bind.Types {
-		scs = append(scs, &hScenario{Name: t.QName(), T: t, Msgs: []*rm.Value{rm.Zero(t), valenum.Distinct(t)}, Ops: ops, Depth: depth, Caps: []int{capZero, capOwned, 1}})
+		scs = append(scs, &hScenario{Name: t.QName(), T: t, Msgs: []*rm.Value{rm.Zero(t), valenum.Distinct(t)}, Ops: ops, Depth: depth, Caps: []int{capZero, capOwned, 1, -117}})
 		if di := t.DynField(); di >= 0 && t.Fields[di].Nil == "fill" {
 			// encoder fills in the nil extension/body, then the same object is encoded again
 			tab := dynTable(t)
@@ -162,7 +162,7 @@ func runC06(r *ev.Run, thorough bool) {
 		fd = 5
 	}
 	scs = append(scs, frameScenarios(func(t *rm.Type) bool { return true }, fd)...)
-	r.Rule = fmt.Sprintf("every type as a single-type scenario (messages Z, D; nil-extension variants; long variants) with ALL operation sequences of length <= %d over {ENC(m0),ENC(m1),SKIP(1),SKIP(3),JUNK(1 byte),JUNK(5000 bytes),RESET} x 3 capacity classes, plus all frame scenarios of C04 at depth %d; oracle: after ENC the unread buffer == prior ++ EncodeRef(m), prior bytes identical; same object encoded again gives the same bytes; distinct = (scenario,capacity,sequence)", depth, fd)
+	r.Rule = fmt.Sprintf("every type as a single-type scenario (messages Z, D; nil-extension variants; long variants) with ALL operation sequences of length <= %d over {ENC(m0),ENC(m1),SKIP(1),SKIP(3),JUNK(1 byte),JUNK(5000 bytes),RESET} x 4 capacity classes, plus all frame scenarios of C04 at depth %d; oracle: after ENC the unread buffer == prior ++ EncodeRef(m), prior bytes identical; same object encoded again gives the same bytes; distinct = (scenario,capacity,sequence)", depth, fd)
 	r.Assume("model transition for ENC is: unread ++= EncodeRef(m)")
 	parScenarios(r, "C06", scs)
 	r.Sample("szse.NewOrder nil-fill: [ENC(m0) ENC(m0) SKIP(3)] (encoder materialises the extension, second encode must give the same bytes)")
